@@ -273,7 +273,7 @@ pub fn exec_history<'a, B: Robdd<'a>>(ctx: &mut Ctx, cfg: &HistCfg, b: &'a B, op
             pool.push((b.false_ptr(), Tt::konst(n, false)));
             pool.push((b.true_ptr(), Tt::konst(n, true)));
             for v in 0..cfg.n0 {
-                pool.push((b.var(VarLabel::new(v as u64), true), Tt::var(n, v)));
+                pool.push((b.var(crate::gen::lab(v), true), Tt::var(n, v)));
             }
             // C02 state
             let mut rep: HashMap<Tt, BddPtr> = HashMap::new();
@@ -281,11 +281,25 @@ pub fn exec_history<'a, B: Robdd<'a>>(ctx: &mut Ctx, cfg: &HistCfg, b: &'a B, op
             let mut nvars = cfg.n0;
             // level of every label, kept by the harness itself (initial permutation, then
             // run-time variables appended): the shape oracle must not trust the library's map
+            // (indexed by the oracle's dense variable; in the wide regimes the builder's order
+            // covers every label and `wide_full` is that order)
+            let wide_full: Option<Vec<usize>> = if crate::gen::label_map().is_some() { WIDE_FULL.with(|f| f.borrow().clone()) } else { None };
+            let top = wide_full.as_ref().map(|f| f.len()).unwrap_or(cfg.n0);
             let mut levels: Vec<usize> = vec![0; cfg.n0];
-            for (lvl, lbl) in cfg.order.iter().enumerate() {
-                levels[*lbl] = lvl;
+            match &wide_full {
+                None => {
+                    for (lvl, lbl) in cfg.order.iter().enumerate() {
+                        levels[*lbl] = lvl;
+                    }
+                }
+                Some(full) => {
+                    for v in 0..cfg.n0 {
+                        let l = crate::gen::lab(v).value_usize();
+                        levels[v] = full.iter().position(|x| *x == l).expect("HARNESS: label missing from the full order");
+                    }
+                }
             }
-            let hash_map = rsdd::repr::create_semantic_hash_map::<{ rsdd::constants::primes::U64_LARGEST }>(n);
+            let hash_map = rsdd::repr::create_semantic_hash_map::<{ rsdd::constants::primes::U64_LARGEST }>(usize::max(n, top + cfg.max_new));
             macro_rules! arg {
                 ($a:expr) => {{
                     let (p, t) = &pool[$a.0];
@@ -300,7 +314,7 @@ pub fn exec_history<'a, B: Robdd<'a>>(ctx: &mut Ctx, cfg: &HistCfg, b: &'a B, op
                 ctx.count("ops", 1);
                 ctx.count(&format!("op_{}", op.name()), 1);
                 let (got, exp): (BddPtr, Tt) = match op {
-                    Op::Var(v, p) => (b.var(VarLabel::new(*v as u64), *p), Tt::lit(n, *v, *p)),
+                    Op::Var(v, p) => (b.var(crate::gen::lab(*v), *p), Tt::lit(n, *v, *p)),
                     Op::Not(a) => {
                         let (p, t) = arg!(a);
                         (b.negate(p), t.not())
@@ -339,13 +353,13 @@ pub fn exec_history<'a, B: Robdd<'a>>(ctx: &mut Ctx, cfg: &HistCfg, b: &'a B, op
                     }
                     Op::Cond(x, v, val) => {
                         let (p, t) = arg!(x);
-                        (b.condition(p, VarLabel::new(*v as u64), *val), t.cofactor(*v, *val))
+                        (b.condition(p, crate::gen::lab(*v), *val), t.cofactor(*v, *val))
                     }
                     Op::CondModel(x, m) => {
                         let (p, t) = arg!(x);
                         let lits: Vec<Literal> =
-                            m.iter().map(|(v, val)| Literal::new(VarLabel::new(*v as u64), *val)).collect();
-                        let pm = PartialModel::from_litvec(&lits, nvars);
+                            m.iter().map(|(v, val)| Literal::new(crate::gen::lab(*v), *val)).collect();
+                        let pm = PartialModel::from_litvec(&lits, top + (nvars - cfg.n0));
                         let mut e = t;
                         for (v, val) in m {
                             e = e.cofactor(*v, *val);
@@ -354,12 +368,12 @@ pub fn exec_history<'a, B: Robdd<'a>>(ctx: &mut Ctx, cfg: &HistCfg, b: &'a B, op
                     }
                     Op::Exists(x, v) => {
                         let (p, t) = arg!(x);
-                        (b.exists(p, VarLabel::new(*v as u64)), t.exists(*v))
+                        (b.exists(p, crate::gen::lab(*v)), t.exists(*v))
                     }
                     Op::Compose(x, v, y) => {
                         let (p, t) = arg!(x);
                         let (q, u) = arg!(y);
-                        (b.compose(p, VarLabel::new(*v as u64), q), t.compose_doc(*v, &u))
+                        (b.compose(p, crate::gen::lab(*v), q), t.compose_doc(*v, &u))
                     }
                     Op::AndLst(l) => {
                         let mut ps = Vec::new();
@@ -383,22 +397,25 @@ pub fn exec_history<'a, B: Robdd<'a>>(ctx: &mut Ctx, cfg: &HistCfg, b: &'a B, op
                     }
                     Op::NewVar(pol) => {
                         let (lbl, p) = b.new_var_(*pol);
-                        let v = lbl.value_usize();
-                        if v != nvars || b.num_vars_() != nvars + 1 {
+                        // the new label is the number of variables the builder knew, placed last
+                        let want = top + (nvars - cfg.n0);
+                        if lbl.value_usize() != want || b.num_vars_() != want + 1 {
                             ctx.violation(
                                 "bdd.new_var.label",
                                 "new_var label/num_vars",
-                                json!({"label": v, "expected": nvars, "num_vars": b.num_vars_(),
+                                json!({"label": lbl.value_usize(), "expected": want, "num_vars": b.num_vars_(),
                                     "cfg": cfg.to_json()}),
                             );
                         }
+                        crate::gen::extend_label_map(want);
+                        let v = nvars;
                         nvars += 1;
-                        levels.push(nvars - 1);
-                        if b.order_ref().get(lbl) != nvars - 1 || b.order_ref().var_at_level(nvars - 1) != lbl {
+                        levels.push(want);
+                        if b.order_ref().get(lbl) != want || b.order_ref().var_at_level(want) != lbl {
                             ctx.violation(
                                 "bdd.new_var.order",
                                 "new_var position",
-                                json!({"label": v, "pos": b.order_ref().get(lbl), "cfg": cfg.to_json()}),
+                                json!({"label": lbl.value_usize(), "pos": b.order_ref().get(lbl), "cfg": cfg.to_json()}),
                             );
                         }
                         (p, Tt::lit(n, v, *pol))
@@ -589,12 +606,17 @@ fn check_canon<'a, B: Robdd<'a>>(
         }
         known.insert(k, nd);
         ctx.count("nodes_shape_checked", 1);
-        let lvl = levels[nd.var.value_usize()];
         let mut bad: Option<&str> = None;
-        for child in [nd.low, nd.high] {
-            if let Some(cv) = child.var_safe() {
-                if levels[cv.value_usize()] <= lvl {
-                    bad = Some("order violated on an edge");
+        let level_of = |l: VarLabel| levels.get(crate::gen::unlab(l)).cloned();
+        match level_of(nd.var) {
+            None => bad = Some("node on a variable that no operand mentions"),
+            Some(lvl) => {
+                for child in [nd.low, nd.high] {
+                    if let Some(cv) = child.var_safe() {
+                        if level_of(cv).map(|c| c <= lvl).unwrap_or(true) {
+                            bad = Some("order violated on an edge");
+                        }
+                    }
                 }
             }
         }
@@ -665,6 +687,8 @@ pub trait Robdd<'a>: BddBuilder<'a> {
     fn smooth_(&'a self, p: BddPtr<'a>, n: usize) -> BddPtr<'a>;
 }
 thread_local! {
+    /// wide regimes: the builder's order over every label (set by run_history)
+    pub static WIDE_FULL: std::cell::RefCell<Option<Vec<usize>>> = const { std::cell::RefCell::new(None) };
     static NEWVAR_CALLS: std::cell::Cell<u64> = const { std::cell::Cell::new(0) };
 }
 macro_rules! impl_robdd {
@@ -744,6 +768,22 @@ macro_rules! with_robdd {
 /// run a history on a fresh builder; the builder is dropped afterwards, so the
 /// result carries no pointers
 pub fn run_history(ctx: &mut Ctx, cfg: &HistCfg, ops: &[Op], checks: &Checks) -> HistStats {
+    if crate::gen::label_map().is_some() {
+        // wide: dense variable i is label map[i]; the builder's order covers every label up to
+        // the largest, the dense variables keep the relative order cfg.order
+        crate::gen::fit_label_map(cfg.n0);
+        let saved = crate::gen::label_map();
+        let full = crate::gen::full_label_order_det(&cfg.order);
+        WIDE_FULL.with(|f| *f.borrow_mut() = Some(full.clone()));
+        let bcfg = HistCfg { n0: full.len(), order: full, ..cfg.clone() };
+        let r = with_robdd!(bcfg, b, {
+            let r = exec_history(ctx, cfg, b, ops, checks);
+            HistStats { canon: r.canon, grows: r.grows, lru_grows: r.lru_grows, lru_conflicts: r.lru_conflicts, nodes: r.nodes }
+        });
+        // run-time variables extended the map; a second run of the same history starts afresh
+        crate::gen::set_label_map(saved);
+        return r;
+    }
     with_robdd!(cfg, b, {
         let r = exec_history(ctx, cfg, b, ops, checks);
         HistStats { canon: r.canon, grows: r.grows, lru_grows: r.lru_grows, lru_conflicts: r.lru_conflicts, nodes: r.nodes }
